@@ -2199,10 +2199,21 @@ def rule_one_file_per_function_across_blocks(ctx, rep: Report, rid="T22"):
     me.setdefault("wrapper_file_headers", "// headers")
     ps = func_params(fn)
     env = dict(zip(ps, [me, root, True]))
+    consts_ = {}
+    for mi_ in prog.modules.values():
+        if mi_.rel.startswith("gtwrap/matlab_wrapper/"):
+            for st_ in mi_.tree.body:
+                if isinstance(st_, ast.Assign) and len(st_.targets) == 1 and isinstance(st_.targets[0], ast.Name):
+                    consts_[st_.targets[0].id] = st_.value
     try:
-        mini_exec(fn, _with_templates(ctx, env), budget=400000, methods=methods, classes=classes)
+        mini_exec(fn, _with_templates(ctx, env), budget=400000, methods=methods, classes=classes, consts=consts_)
     except (_PathEval.Unknown, _Raised, TypeError, KeyError, IndexError, AttributeError) as ex:
-        raise AnalysisError(f"{rep.prop}/{rid}: wrap_namespace could not be evaluated on the sample namespace ({str(ex)[:70]})")
+        # (T14 still checks by structure that the free-function step runs for every namespace block; whether two blocks share a
+        #  file is only decided where the emitters can be run)
+        rep.add(rid, "free functions:wrap_namespace evaluated on a namespace written in two blocks", True, f"not evaluable ({str(ex)[:70]}); T14 decides the structural part",
+                loc, nontrivial=False)
+        rep.units["files_of_the_two_block_namespace"] = None
+        return
 
     def flat(c, pre=""):
         out = []
